@@ -414,10 +414,13 @@ func permutations(ids []uint64) [][]uint64 {
 }
 
 // postExhaustive: n = 4, every arrival order x every corruption kind x every corrupted sender.
-func postExhaustive(out *hx.Out, roles []string) {
+func postExhaustive(out *hx.Out, roles []string, part, parts int) {
 	ids := []uint64{1, 2, 3, 4}
 	for _, role := range roles {
-		for _, order := range permutations(ids) {
+		for oi, order := range permutations(ids) {
+			if parts > 1 && oi%parts != part {
+				continue
+			}
 			for ki, kind := range postKinds {
 				for _, c := range ids {
 					if kind == "none" && c != 1 {
